@@ -143,13 +143,21 @@ def run : Runner
       | .ok f => s!"{ks} {filterObs f}"
       | .error e => s!"{ks} {bErrTok e}" }
   -- a random key is a key: same bytes as the builder given that key, two random keys differ, every item is a member
-  | "bldrand", [_, variant, p, _n, m, items], _ => do
+  | "bldrand", [_, variant, p, _n, m, items], impl => do
     let p ← nat? p; let m ← nat? m
     let (p, m) := if variant == "default" then (19, 784931) else (p, m)
     let items ← expandItems items
     let distinct := items.eraseDups.length
-    pure { model := if p = 0 ∨ p > 32 ∨ m = 0 ∨ m > 0xffffffff then "err" else s!"1 1 {items.length}/{items.length}",
-           prop := if distinct == 0 then "-" else "spec" }
+    -- the key is random: it is taken from the observation, the filter bytes for THAT key are the model's
+    let key := match impl.splitOn " " with
+      | [_, _, _, k, _] => (bytes? k).getD []
+      | _ => []
+    let b := (items.foldl (fun b d => GcsBuilder.step b (.addEntry d))
+                ([GcsBuilder.Op.setKey key, .setP p, .setM m].foldl GcsBuilder.step {}))
+    let model := match GcsBuilder.Build sip b with
+      | .ok f => s!"1 1 {items.length}/{items.length} {Bytes.tok key} {Bytes.tok (Gcs.NBytes f)}"
+      | .error _ => "err"
+    pure { model, prop := if distinct == 0 then "-" else "spec" }
   | "basic", [_, txs, prev], impl => do
     let (ext, _) ← C10.splitExt impl
     let bh ← bytes? ext
